@@ -39,6 +39,8 @@ def analyse(src: Source) -> List[Report]:
     prog = Program(src)
     check_occupancy(prog, rep)
     check_landing_table(prog, rep)
+    from ..cell_rules import check_cell_bounds
+    check_cell_bounds(prog, rep)
     check_component_consistency(prog, rep, "R11.4-component-consistency", ("jellyfysh/event_handler/cell_boundary", "jellyfysh/activator/"))
     hp = HandlerProtocol(prog, prog.class_named("CellBoundaryEventHandler"), rep, ["R7.2", "R8.5", "R7.1"])
     hp.run()
@@ -110,4 +112,13 @@ TWINS = [
          "                            or self._number_occupants_not_bounded):",
          "                    if (self._number_occupants_not_bounded\n"
          "                            or len(self._occupants[cell]) < self._maximum_number_occupants):"),
+]
+MUTANTS += [
+    Edit("charge-restricted cell system records positive charges only", OC, "(lambda unit: unit.charge[charge] != 0)", "(lambda unit: unit.charge[charge] > 0)", "R11.1"),
+    Edit("lower cell corner: search stops on the neighbouring float", "jellyfysh/activator/internal_state/cell_occupancy/cells/cuboid_cells.py",
+         "                    while int(lower_position / self._cell_side_lengths[index]) < cell_identifier_list[index]:\n                        lower_position = _next_float_up(lower_position)\n", "", "R11.6"),
+]
+TWINS += [
+    Edit("relevance as negated equality", OC, "(lambda unit: unit.charge[charge] != 0)", "(lambda unit: not unit.charge[charge] == 0.0)"),
+    Edit("relevance through abs", OC, "(lambda unit: unit.charge[charge] != 0)", "(lambda unit: abs(unit.charge[charge]) > 0)"),
 ]
